@@ -1,10 +1,12 @@
 pub mod c01;
 pub mod c03;
 pub mod c04;
+pub mod c05;
+pub mod c06;
 
 use crate::engine::Env;
 
-pub const ALL: [&str; 3] = ["C01", "C03", "C04"];
+pub const ALL: [&str; 5] = ["C01", "C03", "C04", "C05", "C06"];
 
 /// run (or, with env.register_only, just register) every sub-check of a property
 pub fn run(id: &str, env: &mut Env) -> bool {
@@ -12,6 +14,8 @@ pub fn run(id: &str, env: &mut Env) -> bool {
         "C01" => c01::run(env),
         "C03" => c03::run(env),
         "C04" => c04::run(env),
+        "C05" => c05::run(env),
+        "C06" => c06::run(env),
         _ => return false,
     }
     true
@@ -23,6 +27,8 @@ pub fn rule(id: &str) -> String {
         "C01" => "Day numbers: complete enumeration of windows (quick) or of all 2^32 days (thorough), each compared with an independent civil-calendar model (closed form + successor stepping), plus seeded boundary-dense random days through the full per-case oracle; triples: the full 14x33 (month,day) product for boundary-dense years (quick) or for every year in -5879612..=5879612 (thorough), plus random triples. Non-trivial day: BC, or within 2 days of a year end, in the Feb 27..Mar 2 zone, at the era boundary or a range end. Non-trivial triple: valid and BC / end of February / year edge / range end, or invalid by exactly one step (day 0, day = len+1, month 0/13, year 0, just outside the range).",
         "C03" => "Timestamps: every second within +-3000 s of both range ends, of 0 and of 0001-01-01, hourly steps over +-400 days around the range ends, and seeded boundary-dense i64 values (in range: round trip and fields against the i128 time line; out of range: must panic). Pairs: first instant boundary-dense over the whole range, second at a boundary-dense delta (0, 1 ns, 1 s -+ 1 ns, 1 day -+ 1 ns, < one unit, across day 0, far), each side with an independent offset; ==, <, cmp, partial_cmp and the sign of all nine *_since compared with the i128 instants; Date and Time order likewise. Non-trivial: negative non-day-aligned timestamp, timestamp within a day of a range end (inside or outside), i64 extremes; pair with different offsets within a day, pair straddling 0001-01-01, equal instants, sub-second apart.",
         "C04" => "Cases (receiver instant boundary-dense over the whole range minus 2 days, offset, operation): the 14 add_/sub_ unit methods on DateTime and add_days/sub_days on Date with u32 counts (0, small, 2^31-1, 2^31, 2^32-1, the thresholds where count x unit crosses 2^63/2^64 ns, log-uniform, uniform), DateTime +/- Duration (0 .. u64::MAX s), DateTime +/- Time, Date +/- Duration and the *Assign forms; one case in four places the receiver so that the target lands within +-2 days (or +-2 ns) of a range end. Oracle: i128 time line; representable => exact instant and unchanged offset, else any panic. Non-trivial: BC receiver, crosses a day boundary or day 0, count >= 2^31, amount >= 2^63 ns, target within a day of a range end.",
+        "C06" => "Pairs of instants (first boundary-dense over the range, second at a boundary-dense delta: 0, 1 ns, < one unit, k units +-1 ns, across 0001-01-01, far) with independent offsets: days..nanos_since on DateTime, hours..nanos_since on Time, days_since on Date compared with the exact i128 difference truncated toward zero, antisymmetry in both directions, duration_between = |difference| and symmetric; plus (instant, unit, u32 n): add_/sub_<unit>(n) followed by <unit>_since returns +-n. Non-trivial: |delta| below one unit, sub-unit remainders ordered opposite to the totals, pair straddling or entirely before 0001-01-01, n >= 2^31, start not aligned to the unit.",
+        "C05" => "Cases (date, N, operation in add_months/sub_months/add_years/sub_years, receiver Date or DateTime with a time of day): dates rich in month ends 28..31 and Feb 29 of AD and BC leap years, the era neighbourhood and the range ends; N from 0,1,2,11,12,13,23,24,25, month+-1, 1200, 4800, the exact distance to the range end and to the era boundary +-k, 2^31-1, 2^31, 2^32-1, log-uniform; plus the complete product (month, day) x N<=50 x 4 operations over a window of years around the era. Oracle: month arithmetic on the astronomical month index with end-of-month clamp (second formulation by single-month stepping for N<=50); in range => exact date, same time of day, same offset; out of range => panic. DateTime receivers with a non-zero offset: only time of day and offset preservation are judged. Non-trivial: day >= 29, clamped, crosses the era, BC start, sub_months borrowing a year, N >= 2^31, target within a month of a range end.",
         _ => "",
     }
     .to_string()
